@@ -13,6 +13,7 @@ the chain; plus an operation catalogue that makes the interpreter hold fresh, ot
 mid-operation. Oracle: zero use-after-reclaim events, history(always) == history(tape) == history(never), no panic.
 """
 import json
+import os
 
 from ..prng import Rng, derive
 from ..core import process_outcome, Stats, stable_hash
@@ -277,7 +278,7 @@ def _n(x):
 # For a few operations the value is also known in closed form (closures over several variables of one frame, called after
 # the frame is gone): the reference run itself must produce it - "intact" means the variable's own value, not merely the
 # same wrong value under every schedule.
-MEMCHECK_EVERY = 24
+MEMCHECK_EVERY = int(os.environ.get("VERIF_MEMCHECK_EVERY", "24"))      # exploration knob: 1 = every scenario also runs under valgrind
 
 
 OPS_EXPECT = {
